@@ -444,6 +444,17 @@ pub fn check_view(rep: &Report, ck: &str, c: &Case, v: &View) -> CheckResult {
             cj(json!({"field_1": p1, "field_2": p2, "positions": diff})),
         );
     }
+    // (G) a field that is exactly 0 or 1 where the honest prover puts a blinded value: a response whose blinding was
+    // skipped for a special value (a hidden attribute equal to 0) confirms that value at sight
+    rep.eval(ck, 1);
+    if let Some((path, val)) = int_leaves(&v.proof).into_iter().find(|(p, x)| (*x == 0 || *x == 1) && !p.ends_with("/randomness")) {
+        return rep.fail(
+            ck,
+            &format!("degenerate-field:{}:{}", v.kind, generic_path(&path)),
+            format!("{}: the field {} is exactly {} (hidden attributes: {:?})", v.kind, path, val, v.hidden_vals.iter().map(|(i, x)| format!("m_{} = {}", i, short(x))).collect::<Vec<_>>()),
+            cj(json!({"field": path})),
+        );
+    }
     // (D) dictionary attack: true value vs decoy, order decided by the seed; the attacker sees only
     // the proof, the public base pairs and the two candidates
     for (pos, truth) in &v.hidden_vals {
@@ -545,6 +556,8 @@ pub fn run(ctx: &Ctx, rep: &Report) -> Meta {
         std::process::exit(2);
     }
     rep.note("attacker programs find a planted opening (positive control)".into());
+    // another (smaller) ciphersuite is used first in this process; its proofs are not judged
+    rep.note(format!("a complete run under a 512-bit parameter set declared through CLCiphersuite preceded the judged proofs (went through: {})", other_suite_first()));
     let nmax = ctx.tier.pick(3usize, 5usize);
     let fixed = fixed_cases(ctx, nmax);
     let one = |rep: &Report, ck: &str, c: &Case| -> CheckResult {
@@ -555,15 +568,26 @@ pub fn run(ctx: &Ctx, rep: &Report) -> Meta {
     };
     par_items(ctx, rep, "every-hidden-set", &fixed, |c| one(rep, "every-hidden-set", c));
     run_cases(ctx, rep, "generated", ctx.tier.pick(24, 300), 20, || strat(nmax.max(4)), |c| one(rep, "generated", c));
-    if ctx.tier == Tier::Thorough && !rep.aborted() {
-        for (s2, nfix) in [(ClSuite::CL2048, 2usize), (ClSuite::CL3072, 2)] {
+    // hidden attributes with the values 0 and 1: the programs that need no high-entropy candidate (A, B, C, E, F, G)
+    let small: Vec<Case> = fixed
+        .iter()
+        .enumerate()
+        .filter(|(k, c)| k % ctx.tier.pick(4, 2) == 0 && c.hidden_list.is_empty() && c.hidden_mask != 0)
+        .map(|(k, c)| Case { small_mask: if k % 8 == 0 { c.hidden_mask } else { 1 << c.hidden_mask.trailing_zeros() }, seed: c.seed.wrapping_add(2000 + k as u32), ..c.clone() })
+        .collect();
+    par_items(ctx, rep, "small-attributes", &small, |c| one(rep, "small-attributes", c));
+    // larger suites after the CL1024 proofs of this process (quick: two CL2048 proofs): the order "smaller suite
+    // first" is the one in which state sized by the first suite is too small for the next
+    if !rep.aborted() {
+        let later: Vec<(ClSuite, usize, u32)> = if ctx.tier == Tier::Thorough { vec![(ClSuite::CL2048, 2, 12), (ClSuite::CL3072, 2, 12)] } else { vec![(ClSuite::CL2048, 1, 2)] };
+        for (s2, nfix, ncases) in later {
             let keys = key_pool(s2, 0, nfix, ctx.seed);
             if keys.is_empty() {
                 continue;
             }
             let sh2 = Shared { keys, tp: None };
             let ckn = format!("generated-{}", s2.name());
-            run_cases(ctx, rep, &ckn, 12, 5, || strat(3), |c| {
+            run_cases(ctx, rep, &ckn, ncases, 5, || strat(3), |c| {
                 let r = with_cl!(s2, CS => build_view::<CS>(c, &sh2));
                 match r {
                     Ok(v) => check_view(rep, &ckn, c, &v),
@@ -575,7 +599,7 @@ pub fn run(ctx: &Ctx, rep: &Report) -> Meta {
     Meta {
         rule: "honest issuance proofs (with and without trusted-party commitment) and signature proofs for EVERY non-empty hidden set (n = 1..3 quick / 1..5 thorough) plus generated cases, high-entropy 256-bit attributes only, issuers with 0..3 more bases than attributes; \
                attacker programs over serde_json::to_value(proof) and the public base pairs {(a_i, b), (g_i, h)}: (A) every (value, randomness)-shaped object tested as an opening of every secret the prover holds, \
-               (B) every integer leaf as value against every integer leaf as randomness, (C) recovery of the signature's v as V * g^(-rho) over all leaf pairs, (D) dictionary attack with the true hidden attribute and a decoy in seed-shuffled order, by opening recomputation, by arithmetic relations (a field equal to or a multiple of the candidate) and by difference quotients (s - s')/(c - c') over all response pairs and all pairs of public challenges (shared blinding inside one proof), (F, by the witness holder) the blinding part V / M of every group-element field for every message part M in {one attribute, all, hidden, revealed, none} under each base family: two different fields with the same blinding part whose message parts differ in a hidden position, or a blinding part equal to 1; \
+               (B) every integer leaf as value against every integer leaf as randomness, (C) recovery of the signature's v as V * g^(-rho) over all leaf pairs, (D) dictionary attack with the true hidden attribute and a decoy in seed-shuffled order, by opening recomputation, by arithmetic relations (a field equal to or a multiple of the candidate) and by difference quotients (s - s')/(c - c') over all response pairs and all pairs of public challenges (shared blinding inside one proof), (G) no field outside the stripped commitment randomness is exactly 0 or 1 (also with hidden attributes forced to 0 / 1: small-attributes), (F, by the witness holder) the blinding part V / M of every group-element field for every message part M in {one attribute, all, hidden, revealed, none} under each base family: two different fields with the same blinding part whose message parts differ in a hidden position, or a blinding part equal to 1; \
                oracle: no program succeeds; positive control: the programs find a planted opening; non-trivial = proof with >= 1 hidden attribute; evaluations = attacker-program runs"
             .into(),
         assumptions: vec!["only the direct recomputation attacks named by the property are decided; subtler leaks are not found".into(), "attributes are random 256-bit values, so an accidental equality has probability < 2^-200".into()],
